@@ -18,7 +18,7 @@ from ..core import Check, canon, exc_family, show, tag, tlc, untag, untext
 
 CFG = """CONSTANTS MaxPatchLen = {plen}
  MaxActs = {acts}
-INIT Init
+INIT {init}
 NEXT {next}
 INVARIANT Repeatable
 INVARIANT AddVariants
@@ -143,11 +143,11 @@ def replay(rec: Dict[str, Any]) -> List[Tuple[str, Dict[str, Any], str]]:
 
 def run(chk: Check, tier: str, seed: int) -> None:
     recs: List[Dict[str, Any]] = []
-    r = tlc("MC_PatchValue", CFG.format(plen=2, acts=2 if tier == "quick" else 3, next="Next"), timeout=2400)
+    r = tlc("MC_PatchValue", CFG.format(plen=2, acts=2 if tier == "quick" else 3, next="Next", init="Init"), timeout=2400)
     chk.add_tlc(r)
     recs += r.records
     num, depth = (3000, 5) if tier == "quick" else (80000, 6)
-    r = tlc("MC_PatchValue", CFG.format(plen=3 if tier == "quick" else 4, acts=depth - 1, next="NextSim"), simulate=(num, depth), seed=seed, workers=1, timeout=2400)
+    r = tlc("MC_PatchValue", CFG.format(plen=3 if tier == "quick" else 4, acts=depth - 1, next="NextSim", init="InitSim"), simulate=(num, depth + 1), seed=seed, workers=1, timeout=2400)
     chk.add_tlc(r)
     recs += r.records
     for rec, res in zip(recs, core.pmap(replay, recs)):
